@@ -1,6 +1,154 @@
-(* C05 — job and project documents are faithful persistent dicts; buffering is transparent. *)
+(* C05 — job and project documents are faithful persistent dicts; buffering is transparent.
+   This file only states theorems; proofs live in SV.C05Proofs.  The model is SV.Doc:
+   plain dict/list semantics ([plain_step]), the synced-collection protocol of the dependency ([cstep]: every
+   collection merges the file into its own memory — [merge] = SyncedDict._update — applies the operation, writes
+   back), the serialized file buffer (entries, capacity, nesting depth, registered collections, forced flush),
+   and signac's part: which file a Job/Project object's document resolves to ([jstep]).
+
+   FULL STATEMENTS and what is proved of them
+   (doc_faithful)        for all op lists through any number of collections: value read back = file = fold of
+                         plain dict semantics.  FALSE of the faithful model (and of the code):
+                         C05_doc_faithful_refuted (None cannot replace a nested dict through update/reset/reload)
+                         and, type-exactly, C05_doc_faithful_typed_refuted (an existing value that compares ==
+                         is kept: 1 stays 1 when True is stored).  Proved: C05_doc_faithful_partial — for one
+                         up-to-date collection per file, every operation acts on the file as the pure function
+                         [doc_apply merge] and leaves collection and file equal; for every operation other than
+                         update()/reset() that function IS the plain dict operation (C05_merge_free_is_plain).
+                         Missing: the multi-collection statement up to Python == for None-free values (needs the
+                         congruence of == under merge; not proved).
+   (buffer_transparent)  for all programs with nested enter/exit, capacities, several files: files at depth 0 =
+                         files of the unbuffered run.  FALSE when two collections share a file inside a block:
+                         C05_buffer_transparent_refuted.  Proved: C05_buffer_transparent_partial — one collection
+                         per file, ALL operations, any nesting / capacities / set_buffer_capacity: every result
+                         (hence every read inside a block) equals the unbuffered run's, memories are equal, and at
+                         depth 0 every document equals the unbuffered run's (an absent file = empty document).
+   (read_own_writes)     FALSE with a second collection on the file and a small capacity:
+                         C05_read_own_writes_refuted; for one collection per file it is part of
+                         C05_buffer_transparent_partial (all results equal those of the unbuffered run).
+   (doc_handle_follows)  proved: C05_doc_handle_follows_rekey / _remove / _op. *)
 From SV Require Import Base Json Canon Doc CorrC05 C05Proofs.
 
-Theorem C05_placeholder : merge (JObj [([99%N], JObj [])]) (JObj [([99%N], JNull)]) = JObj [([99%N], JObj [])].
-Proof. exact merge_null_container_example. Qed.
-Print Assumptions C05_placeholder.
+Theorem C05_buffer_transparent_partial : forall (frepr : fl -> str) prog st0,
+  good_init st0 -> forallb (fun it => negb (is_new it)) prog = true ->
+  let '(B, rb) := crun frepr merge st0 prog in
+  let '(U, ru) := crun frepr merge st0 (strip prog) in
+  keep prog rb = ru /\
+  (forall h, nlookup h (mems B) = nlookup h (mems U)) /\
+  (depth B = 0%nat ->
+     (forall h f m, nlookup h (mems B) = Some (f, m) -> fcontent B f = fcontent U f) /\
+     (forall f, (forall h m, nlookup h (mems B) <> Some (f, m)) -> nlookup f (files B) = nlookup f (files U))).
+Proof. exact buffer_transparent_single. Qed.
+Print Assumptions C05_buffer_transparent_partial.
+
+(* the simulation invariant behind it is preserved by every item, for the buffered run against the unbuffered one *)
+Theorem C05_simulation_step : forall (frepr : fl -> str) B U it,
+  Inv B U -> is_new it = false ->
+  let '(B', rB) := cstep frepr merge B it in
+  if unbuffered_item it
+  then let '(U', rU) := cstep frepr merge U it in rB = rU /\ Inv B' U'
+  else Inv B' U.
+Proof. exact cstep_sim. Qed.
+Print Assumptions C05_simulation_step.
+
+Theorem C05_buffer_transparent_refuted :
+  let B := fst (crun fr0 merge core0 prog_lost) in
+  let U := fst (crun fr0 merge core0 (strip prog_lost)) in
+  depth B = 0%nat /\ fcontent B 1 = JObj [] /\ fcontent U 1 = JObj [(kx, JInt 1)].
+Proof. exact buffer_transparent_refuted_w. Qed.
+Print Assumptions C05_buffer_transparent_refuted.
+
+Theorem C05_read_own_writes_refuted :
+  nth 6 (snd (crun fr0 merge core0 prog_own)) (Err EOther) = Ok JNull /\
+  nth 7 (snd (crun fr0 merge core0 prog_own)) (Err EOther) = Ok (JObj []).
+Proof. exact read_own_writes_refuted_w. Qed.
+Print Assumptions C05_read_own_writes_refuted.
+
+Theorem C05_doc_faithful_partial : forall (frepr : fl -> str) st h f d p o,
+  uptodate st h f d ->
+  let '(st', r) := cop frepr merge st h p o in
+  let '(d', r') := doc_apply merge p o d in
+  r = r' /\ uptodate st' h f (if is_read o then d else d') /\
+  (forall f0, f0 <> f -> nlookup f0 (files st') = nlookup f0 (files st)) /\
+  (forall x, x <> h -> nlookup x (mems st') = nlookup x (mems st)).
+Proof. exact ucop_spec. Qed.
+Print Assumptions C05_doc_faithful_partial.
+
+Theorem C05_merge_free_is_plain : forall p o d, merge_free o = true -> doc_apply merge p o d = plain_step p o d.
+Proof. exact doc_apply_plain. Qed.
+Print Assumptions C05_merge_free_is_plain.
+
+Theorem C05_doc_faithful_refuted :
+  exists v, nth 3 (snd (crun fr0 merge core0 prog_none)) (Err EOther) = Ok v /\
+            fcontent (fst (crun fr0 merge core0 prog_none)) 1 = v /\
+            plain_none = JObj [(kc, JNull)] /\ py_eq v plain_none = false.
+Proof. exact doc_faithful_refuted_w. Qed.
+Print Assumptions C05_doc_faithful_refuted.
+
+Theorem C05_doc_faithful_typed_refuted :
+  nth 3 (snd (crun fr0 merge core0 prog_typed)) (Err EOther) = Ok (JObj [(kx, JInt 1)]) /\
+  fst (plain_step [] (OUpdate [(kx, JBool true)]) (JObj [(kx, JInt 1)])) = JObj [(kx, JBool true)] /\
+  py_eq (JObj [(kx, JInt 1)]) (JObj [(kx, JBool true)]) = true.
+Proof. exact doc_faithful_typed_refuted_w. Qed.
+Print Assumptions C05_doc_faithful_typed_refuted.
+
+Theorem C05_doc_handle_follows_rekey : forall (frepr : fl -> str) js j f f' d,
+  nlookup j (jobs js) = Some (f, d) -> f <> f' -> nmem f (dirs js) = true -> nmem f' (dirs js) = false -> f' <> 0%N ->
+  let js1 := fst (jstep frepr merge js (JRekey j f')) in
+  snd (jstep frepr merge js (JRekey j f')) = Ok JNull /\
+  nlookup j (jobs js1) = Some (f', None) /\
+  nlookup f' (files (core js1)) = nlookup f (files (core js)) /\
+  nlookup f (files (core js1)) = None /\
+  exists js2 h, resolve_doc frepr merge js1 j = Some (js2, h) /\
+                nlookup h (mems (core js2)) = Some (f', empty_obj) /\ nmem f' (dirs js2) = true.
+Proof. exact follow_rekey. Qed.
+Print Assumptions C05_doc_handle_follows_rekey.
+
+Theorem C05_doc_handle_follows_remove : forall (frepr : fl -> str) js j f d,
+  nlookup j (jobs js) = Some (f, d) -> nmem f (dirs js) = true ->
+  let js1 := fst (jstep frepr merge js (JRemove j)) in
+  nlookup j (jobs js1) = Some (f, None) /\ nlookup f (files (core js1)) = None /\ nmem f (dirs js1) = false /\
+  exists js2 h, resolve_doc frepr merge js1 j = Some (js2, h) /\
+                nlookup h (mems (core js2)) = Some (f, empty_obj) /\ h = nexth js.
+Proof. exact follow_remove. Qed.
+Print Assumptions C05_doc_handle_follows_remove.
+
+Theorem C05_doc_handle_follows_op : forall (frepr : fl -> str) js j f p o,
+  nlookup j (jobs js) = Some (f, None) ->
+  exists js1 h, resolve_doc frepr merge js j = Some (js1, h) /\ nlookup h (mems (core js1)) = Some (f, empty_obj) /\
+                jstep frepr merge js (JOp j p o) =
+                  (with_core js1 (fst (cstep frepr merge (core js1) (COp h p o))),
+                   snd (cstep frepr merge (core js1) (COp h p o))).
+Proof. exact follow_op. Qed.
+Print Assumptions C05_doc_handle_follows_op.
+
+(* licence for the correspondence step: when the implementation's observations ARE the model's, the oracle's
+   verdict on the implementation is its verdict on the model run (and there is no mismatch iff the model agrees
+   with itself).  The harness reports how many cases agree exactly; the others are compared up to key order. *)
+Theorem C05_model_holds : forall c,
+  agree_exact c = true -> holds_C05 c = holds_C05 (with_model_obs c) /\ mismatch_C05 c = mismatch_C05 (with_model_obs c).
+Proof. exact model_holds_C05. Qed.
+Print Assumptions C05_model_holds.
+
+(* non-vacuity of [good_init]: two fresh collections on two files, one of which already exists with content *)
+Example C05_example_good_init :
+  good_init {| files := [(2%N, JObj [([97%N], JInt 1)])];
+               mems := [(1%N, (1%N, empty_obj)); (2%N, (2%N, empty_obj))];
+               buf := []; reg := []; cap := 10%N; caps := []; depth := 0 |}.
+Proof.
+  split; [reflexivity|]. split; [reflexivity|]. split.
+  - intros h h' f m m' H1 H2. simpl in *.
+    destruct (N.eqb h 1) eqn:E1; [|destruct (N.eqb h 2) eqn:E2; [|discriminate]];
+      (destruct (N.eqb h' 1) eqn:E3; [|destruct (N.eqb h' 2) eqn:E4; [|discriminate]]);
+      inversion H1; inversion H2; subst; try discriminate;
+      repeat match goal with H : N.eqb _ _ = true |- _ => apply N.eqb_eq in H end; congruence.
+  - intros h f m H. simpl in H.
+    destruct (N.eqb h 1); [inversion H; subst; split; [exists []; reflexivity|reflexivity]|].
+    destruct (N.eqb h 2); [|discriminate]. inversion H; subst. split; [exists []; reflexivity|].
+    simpl. split; [apply merge_empty|eexists; reflexivity].
+Qed.
+
+(* ... and a program with nested blocks, a capacity argument and set_buffer_capacity satisfies the side condition *)
+Example C05_example_prog :
+  forallb (fun it => negb (is_new it))
+    [CEnter None; COp 1 [] (OSet [120%N] (JInt 1)); CEnter (Some 0%N); COp 2 [PKey [97%N]] OGet; CSetCap 5%N; CExit; CExit] = true.
+Proof. reflexivity. Qed.
